@@ -3,6 +3,7 @@ package props
 import (
 	"fmt"
 
+	"github.com/nlnwa/whatwg-url/canonicalizer"
 	"github.com/nlnwa/whatwg-url/errors"
 	"github.com/nlnwa/whatwg-url/url"
 	"pgregory.net/rapid"
@@ -20,6 +21,12 @@ var (
 	parserF  = url.NewParser(url.WithFailOnValidationError())
 	parserRF = url.NewParser(url.WithReportValidationErrors(), url.WithFailOnValidationError())
 )
+
+var c15Profiles = []struct {
+	name string
+	p    url.Parser
+}{{"GoogleSafeBrowsing", canonicalizer.GoogleSafeBrowsing}, {"Semantic", canonicalizer.Semantic}, {"WhatWgSortQuery", canonicalizer.WhatWgSortQuery},
+	{"New(default-scheme http)", canonicalizer.New(canonicalizer.WithDefaultScheme("http"))}, {"New(default-scheme foo, decoding)", canonicalizer.New(canonicalizer.WithDefaultScheme("foo"), canonicalizer.WithRepeatedPercentDecoding())}}
 
 // documentedTypes: the constants exported by errors/codes.go.
 var documentedTypes = map[errors.ErrorType]bool{
@@ -150,6 +157,24 @@ func Check15(cc Case15, r *core.Rec) {
 			r.Failf("%s: the %s parser returned an error marked as a failure (%v) but the default parser accepts", where, name, p.err)
 			return
 		}
+	}
+	// ... also for the parse calls of the predefined and composed profiles (Parse and ParseRef, whose
+	// default-scheme retry has error paths of its own)
+	for _, pp := range c15Profiles {
+		pr := parseWith(pp.p, c)
+		if pr.err == nil {
+			continue
+		}
+		ty := errors.Type(pr.err)
+		if ty == "" || !documentedTypes[ty] {
+			r.Failf("%s: %s returned an error without a documented type: %q (%v)", where, pp.name, ty, pr.err)
+			return
+		}
+		if !errors.Failure(pr.err) {
+			r.Failf("%s: %s returned an error that is not marked as a failure: %v", where, pp.name, pr.err)
+			return
+		}
+		r.Class("profile-error")
 	}
 	for _, x := range []np{{"reporting", R}, {"report+fail", RF}} {
 		name, p := x.name, x.p
